@@ -134,6 +134,7 @@ let handle l =
       (match doc_clauses (dec_doc (make_reader rest)) with
        | [] -> "-"
        | l -> String.concat "," (List.map (fun n -> string_of_int (int_of_n n)) l))
+  | ["strict"; t] -> bool_tok (strict_profile (str_of_tok t))
   | "echo" :: rest -> enc_doc (dec_doc (make_reader rest))
   | ["nq"; s] -> bool_tok (needs_quotes (str_of_tok s))
   | ["emitstr"; f; s] -> tok_of_str (emit_str (tok_bool f) (str_of_tok s))
